@@ -19,6 +19,7 @@ import H263V.Lemmas.ReconSpec
 import H263V.Lemmas.LevelArrays
 import H263V.Lemmas.SampleErr
 import H263V.Lemmas.Truncated
+import H263V.Lemmas.TruncatedAny
 namespace H263V.Thm.C03
 open H263V H263V.Gather H263V.Mv H263V.Spec.Vlc
 
@@ -206,6 +207,17 @@ theorem truncated_picture_round_trip (s : State) (hs : s.opts.sorenson = true) (
       semCore s (Spec.HeaderSpec.sorensonPicture p.hdr) p.mbs >>= fun r =>
         .ok (commitPic s r.1 r.2, ⟨zeros k, pos + p.bits.length⟩) :=
   decode_spic_truncated s hs hr p w h hhdr hpt hd hcount hmbs k hk pos
+
+open H263V.State H263V.Lemmas.StreamAny H263V.Lemmas.PictureRoundTrip H263V.Lemmas.SorensonPicture H263V.Lemmas.TruncatedAny in
+/-- **Early end of data, every header flavour**: a valid picture (Sorenson, baseline PTYPE or PLUSPTYPE) cut after ANY number `n` of
+its macroblocks (`cut n p`), followed by at most seven zero padding bits and the end of the data, decodes to the bit-free semantics
+of the macroblocks that are there — the rest of the picture are not-coded macroblocks, i.e. copies of the reference. -/
+theorem truncated_picture_round_trip_any (s : State) (hr : s.running = 0) (p : Pic) (w h : Nat) (hv : p.Valid s w h) (n k : Nat)
+    (hk : k ≤ 7) (pos : Nat) :
+    decodeNextPicture s ⟨(cut n p).bits s ++ zeros k, pos⟩ =
+      semCore s (p.picture s) (p.mbs.take n) >>= fun r =>
+        .ok (commitPic s r.1 r.2, ⟨zeros k, pos + ((cut n p).bits s).length⟩) :=
+  decode_pic_truncated s hr p w h hv n k hk pos
 
 open H263V.Lemmas.GatherPic H263V.Lemmas.ReconSpec in
 /-- **Not-coded macroblocks are exact copies** of the co-located reference macroblock: an INTER macroblock with zero vectors whose
